@@ -21,6 +21,19 @@ Theorem deploy_only_full_live : forall c l o d,
 Proof. exact deploy_only_full_live_proof. Qed.
 Print Assumptions deploy_only_full_live.
 
+(* WHICH registered live nodes NewAssembly picks when more than WorkerCount are registered is free: the choice is an input
+   of the model (op OChoose: arbitrary lists; an admissible one - ascending, exactly WorkerCount, registered after the
+   purge - is used, otherwise the lowest ids). Every theorem of this file quantifies over all histories, hence over every
+   choice at every assembly. Conversely every admissible choice is realised: *)
+Theorem any_admissible_choice_is_deployed : forall c l co cr o s1,
+  let s0 := fst (step c (exec c l) (OChoose co cr)) in
+  pre c s0 o = Some s1 -> stat s1 = Init \/ stat s1 = Paused ->
+  admissible (wc c) (ops (purge c s1)) co = true -> admissible (wc c) (srs (purge c s1)) cr = true ->
+  o_deps (snd (step c s0 o)) = [MkDep co cr (map (fun _ => completed (sto s1)) co) true] /\
+  a_ops (fst (step c s0 o)) = co /\ a_srs (fst (step c s0 o)) = cr.
+Proof. exact any_admissible_choice_is_deployed_proof. Qed.
+Print Assumptions any_admissible_choice_is_deployed.
+
 (* ---- unhealthy_leaves_running: whenever the job has looked at its cluster (any registration, deregistration or
    deployment ending) and is Running, every member of its assembly is registered and within the deadline ... *)
 Theorem unhealthy_leaves_running : forall c l o s1,
@@ -312,3 +325,12 @@ Print Assumptions redeploy_restores_checkpoint_state.
 Example state_history :
   snd (srun ost0 [SEv 1; SEv 1; SCkpt; SEv 1; SEv 2; SRedeploy 1; SEv 1; SEv 2; SRedeploy 0; SEv 1]) = [0; 1; 1; 2; 0; 0; 2; 0; 0; 0].
 Proof. vm_compute. reflexivity. Qed.
+
+(* a standby is registered and the HIGHEST ids are chosen: the deployment goes to [1;2] / [0;1]... the same history with the
+   default choice goes to the lowest ids *)
+Example choice_example :
+  map o_deps (snd (run (MkCfg 2 5000 current) init [ORegOp 0; ORegOp 1; ORegOp 2; ORegSr 0; OChoose [1; 2] [0; 1]; ORegSr 1]))
+    = [[]; []; []; []; []; [MkDep [1; 2] [0; 1] [0; 0] true]] /\
+  map o_deps (snd (run (MkCfg 2 5000 current) init [ORegOp 0; ORegOp 1; ORegOp 2; ORegSr 0; OChoose [2; 1] [0; 1]; ORegSr 1]))
+    = [[]; []; []; []; []; [MkDep [0; 1] [0; 1] [0; 0] true]].
+Proof. vm_compute. split; reflexivity. Qed.
